@@ -537,7 +537,50 @@ def run_case(ctx, ops):
         Machine(ctx, db, {"ops": ops}).run(ops)
 
 
+def conversion_sweep(ctx):
+    """Every conversion route over caller-owned float ndarrays and lists, for unit pairs of every structural kind
+    (offset only, offset and scale, scale only, identity, both directions): the container holds the same numbers
+    afterwards, and so does the object.  (Deterministic: the generated histories reach these combinations by chance.)"""
+    import numpy
+
+    from barril.units import Array, FixedArray, Scalar
+
+    db = env.new_db("posc")
+    pairs = [("degC", "K"), ("K", "degC"), ("degF", "K"), ("degC", "degF"), ("Pa(g)", "Pa"), ("bar(g)", "psi"), ("m", "cm"), ("ft", "m"), ("m", "m"), ("s", "min")]
+    with env.pushed(db):
+        for u, v in pairs:
+            for kind in ("ndarray", "list", "ndarray_f32"):
+                base = [1.5, -2.0, 40.0]
+                mk = (lambda: numpy.array(base)) if kind == "ndarray" else ((lambda: list(base)) if kind == "list" else (lambda: numpy.array(base, dtype=numpy.float32)))
+                routes = [
+                    ("Array.GetValues", lambda c: Array(c, u).GetValues(v)),
+                    ("Array.CreateCopy(unit)", lambda c: Array(c, u).CreateCopy(unit=v)),
+                    ("Array + Array", lambda c: Array(c, u) + Array(mk(), v)),
+                    ("Array on the right of +", lambda c: Array(mk(), v) + Array(c, u)),
+                    ("Array on the right of *", lambda c: (Array(mk(), v) * Array(mk(), v)) * Array(c, u)),
+                    ("FixedArray.GetValues", lambda c: FixedArray(3, c, u).GetValues(v)),
+                    ("FixedArray.ChangingIndex", lambda c: FixedArray(3, c, u).ChangingIndex(0, Scalar(1.0, v))),
+                    ("FixedArray.IndexAsScalar", lambda c: FixedArray(3, c, u).IndexAsScalar(1, Scalar(1.0, v).GetQuantity())),
+                    ("db.Convert", lambda c: db.Convert(Scalar(1.0, u).GetQuantityType(), u, v, c)),
+                    ("Quantity.Convert", lambda c: Scalar(1.0, u).GetQuantity().Convert(c, v)),
+                ]
+                for name, fn in routes:
+                    c = mk()
+                    ctx.ev()
+                    try:
+                        fn(c)
+                    except Exception as e:
+                        if core.tree_frame(e) is None:
+                            raise
+                        ctx.cls("conversion_sweep_rejected:" + type(e).__name__)
+                    if [float(t) for t in c] != [float(t) for t in mk()]:
+                        ctx.record("caller_container_mutated:conversion_sweep:%s:%s" % (name, kind), {"kind": "conversion_sweep", "route": name, "u": u, "v": v, "container": kind}, "%s from %r to %r changed the caller's %s from %r to %r" % (name, u, v, kind, base, [float(t) for t in c]))
+    ctx.cls("conversion_sweep_done")
+
+
 def run_shard(spec, ctx):
+    if spec.get("shard", 0) == 0:
+        conversion_sweep(ctx)
     body = st.lists(st.lists(op_strategy(), min_size=1, max_size=10), min_size=1, max_size=8).map(lambda ll: [o for l in ll for o in l])
     ops = st.tuples(st.lists(_new_strategy(), min_size=0, max_size=6), body).map(lambda t: list(t[0]) + list(t[1]))
 
@@ -552,4 +595,7 @@ def run_shard(spec, ctx):
 
 
 def replay(case, ctx):
+    if case.get("kind") == "conversion_sweep":
+        conversion_sweep(ctx)
+        return ["%s: %s" % (k, v["msg"]) for k, v in ctx.violations.items()]
     return core.replay_guarded(ctx, lambda c: run_case(ctx, c["ops"]), {"ops": _tupled(case["ops"])})
